@@ -8,12 +8,29 @@ use libfuzzer_sys::fuzz_target;
 
 fuzz_target!(|data: &[u8]| {
     let Ok(text) = std::str::from_utf8(data) else { return };
-    for w in ["badfilter", "tag=", "redirect", "csp", "removeparam", "generichide", "ghide", "inject"] { if text.contains(w) { return; } }
+    for w in ["badfilter", "tag", "redirect", "removeparam", "generichide", "ghide", "inject", "important"] { if text.contains(w) { return; } }
     let mut lines: Vec<&str> = text.split('\n').collect();
     if lines.len() < 2 || lines.len() > 12 { return; }
     let url = format!("https://{}", lines.pop().unwrap());
     let filters: Vec<NetworkFilter> = lines.iter().filter_map(|l| match parse_filter(l, true, ParseOptions::default()) { Ok(ParsedFilter::Network(f)) => Some(f), _ => None }).collect();
     if filters.is_empty() { return; }
+    // csp: the directive set for a document request, rule by rule
+    if let Ok(req) = Request::new(&url, &url, "document") {
+        let mut rm = RegexManager::default();
+        let mut dirs: Vec<String> = vec![]; let mut disabled: Vec<String> = vec![]; let mut all_off = false;
+        for f in &filters { if f.is_csp() && f.matches(&req, &mut rm) {
+            match (f.is_exception(), f.modifier_option.as_ref()) { (false, Some(d)) => dirs.push(d.clone()), (true, Some(d)) => disabled.push(d.clone()), (true, None) => all_off = true, _ => {} }
+        } }
+        let mut want: Vec<String> = if all_off { vec![] } else { dirs.into_iter().filter(|d| !disabled.contains(d)).collect() };
+        want.sort(); want.dedup();
+        let mut fs = FilterSet::new(true);
+        fs.add_filters(lines.iter().copied(), ParseOptions::default());
+        let e = Engine::from_filter_set(fs, true);
+        let mut got: Vec<String> = e.get_csp_directives(&req).map(|s| s.split(',').map(String::from).collect()).unwrap_or_default();
+        got.sort(); got.dedup();
+        assert_eq!(got, want, "C15: rules {:?} url {}", lines, url);
+    }
+    if text.contains("csp") { return; }
     for (src, ty) in [("https://src.example/", "script"), ("https://sub.example.com/", "image"), ("", "xmlhttprequest")] {
         let Ok(req) = Request::new(&url, src, ty) else { continue };
         let mut rm = RegexManager::default();
